@@ -731,4 +731,49 @@ def exRecN : Env := { exRec with prog := [[.nop, .spawn 1 false, .done], [.nop, 
 example : Nest exRecN.prog = true ∧ halted (run exRecN 17 (startCall exRecN {} 0)) = true ∧
     (run exRecN 17 (startCall exRecN {} 0)).exc = some .depth := by decide
 
+/-! ### why the class excludes zero-delay yields -/
+
+theorem step_of_halted (E : Env) (s : St) (h : halted s = true) : step E s = s := by
+  unfold step
+  by_cases hu : s.ub = true
+  · simp [hu]
+  · have : s.stack = [] := by simpa [halted, hu] using h
+    simp [hu, this]
+
+theorem run_of_halted (E : Env) : ∀ (k : Nat) (s : St), halted s = true → run E k s = s
+  | 0, _, _ => rfl
+  | k + 1, s, h => by rw [run, step_of_halted E s h]; exact run_of_halted E k s h
+
+/-- `l0: wait 0; goto l0` — the zero-delay yielding loop `while (1) { wait 0 }`, protection on, 20 ms limit,
+    clock +1 ms per reading -/
+def exZero : Env := { cfg := { prot := true, maxExec := 20, maxDepth := 5 }, prog := [[.wait 0, .jmp 0]], inc := fun _ => 1 }
+
+set_option maxRecDepth 1000000 in
+/-- **A loop that yields with zero delay never returns to the host although protection is on** — full
+    statement: `∀ k, halted (run exZero k (startCall exZero {} 0)) = false`.  Every `wait 0` re-times the thread
+    as due; `ExecuteRunning`, called at the end of the same `ScriptExecuteInternal`, resumes it at once with
+    a fresh deadline, so no activation ever reaches its limit.  *Proved* (`_partial`): the host call has not
+    returned after any `k ≤ 600` steps; at step 600 the injected clock shows 401 ms — twenty
+    times the limit —, no exception was raised, exactly one thread exists and the native stack still holds the
+    host call's `ScriptThread::Execute` frame.  *Missing* for the full statement: the cycle invariant over the
+    seven state shapes of one round (the machine is not periodic: the clock differs in every round).  The engine
+    behaves the same way (DESIGN.md 12.2; finite version in corpus/C14/zero-wait-fresh-deadline.json: 40 rounds,
+    491 ms in one call under a 20 ms limit, engine == model); this is why `Nest` excludes `wait` / `waitthread`. -/
+theorem C14_unwind_zero_wait_never_returns_partial :
+    (∀ k, k ≤ 600 → halted (run exZero k (startCall exZero {} 0)) = false) ∧
+    (run exZero 600 (startCall exZero {} 0)).now = 401 ∧ (run exZero 600 (startCall exZero {} 0)).exc = none ∧
+    (run exZero 600 (startCall exZero {} 0)).threads.length = 1 ∧
+    (run exZero 600 (startCall exZero {} 0)).stack.getLast? = some .thrExec := by
+  have h600 : halted (run exZero 600 (startCall exZero {} 0)) = false := by decide
+  refine ⟨?_, by decide, by decide, by decide, by decide⟩
+  intro k hk
+  cases hh : halted (run exZero k (startCall exZero {} 0)) with
+  | false => rfl
+  | true =>
+    have := run_of_halted exZero (600 - k) _ hh
+    rw [← run_add, show k + (600 - k) = 600 by omega] at this
+    rw [this] at h600
+    rw [hh] at h600
+    cases h600
+
 end Morfuse.Unwind
